@@ -99,7 +99,11 @@ class Cursor:
             return True
         if kind == 'err' and out.split(' ')[1:2] and out.split(' ')[1] in ('buflimit', 'io'):
             # refused growth / injected source failure: legitimate outcomes that the cursor machine does
-            # not describe (C09, C14 and C06 have their own oracles); nothing more is checked in this case
+            # not describe (C09, C14 and C06 have their own oracles).  A single-record read that hits the
+            # buffer limit has consumed nothing: the same record is still pending (and is delivered once a
+            # more generous policy is installed).  In every other case nothing more is checked.
+            if out.split(' ')[1] == 'buflimit' and op[0] in 'NOM':
+                return True
             self.unknown = True
             return True
         c = op[0]
